@@ -22,13 +22,15 @@ def plan_C01(ctx):
     run_family(ctx, "giant_posting", n_of(ctx, 1, 6), perfile=1)                 # > 65535 locations in one posting
     if not ctx.quick:
         run_family(ctx, "field_limit", 2, perfile=1)                            # 65535 fields: the 16-bit field id limit
+    run_family(ctx, "match", n_of(ctx, 40, 400), perfile=20, seed_off=5)          # lookups of absent terms after DocsMatchingTerms (shared empty objects)
+    run_family(ctx, "reuse", n_of(ctx, 60, 800), perfile=20, seed_off=6)          # absent terms looked up with recycled lists
     canary(ctx)
 
 
 def e1_postings_iter(ctx):
     """E1: the iterator design refines Level A for every call sequence; each named deviation is caught."""
     tlc_mc(ctx, "PostingsIter", "MC_PostingsIter_%s.cfg" % ("quick" if ctx.quick else "thorough"))
-    for dev in (("StrictReach",) if ctx.quick else ("StrictReach", "NoSameChunkReset", "SkipIgnoresLocs", "OneHitLeq")):
+    for dev in (("StrictReach",) if ctx.quick else ("StrictReach", "NoSameChunkReset", "SkipIgnoresLocs", "OneHitLeq", "ReachOnlyLoaded", "FarSeekLoadedChunk")):
         tlc_mc(ctx, "PostingsIter", "MC_PostingsIter_dev_%s.cfg" % dev, workers=4, expect_violation="AllInv")
 
 
@@ -162,6 +164,21 @@ def e2_merge_term_loop(ctx, num):
     run_scenarios(ctx, [lift.lift_termloop(b, i) for i, b in enumerate(behs)], "e2termloop", perfile=10, shards=4)
 
 
+def e1_dv_merge(ctx):
+    """E1: the merger's per-field focus lists (tables aligned with the segments that have the field) and the doc-value pass."""
+    tlc_mc(ctx, "DvMerge", "MC_DvMerge.cfg" if ctx.quick else "MC_DvMerge_thorough.cfg", workers=16)
+    devs(ctx, "DvMerge", ["UnfilteredTable", "MergedFieldId", "NoDropCheck", "SectionOfLastSegment"], "AllRight", workers=4)
+
+
+def e2_dv_merge(ctx, num):
+    """E2: random DvMerge configurations (field lists in either order, fields without terms, flags, deletions) on the real merger."""
+    import lift
+    behs = tlc_emit(ctx, "DvMerge", "Gen_DvMerge.cfg", os.path.join(ctx.work, "beh-dvmerge.json"),
+                    extra=["-simulate", "num=%d" % (2 * num), "-depth", "24", "-seed", str(ctx.seed)])
+    behs = lift.dedupe(behs)[:num]
+    run_scenarios(ctx, [lift.lift_dvmerge(b, i) for i, b in enumerate(behs)], "e2dvmerge", perfile=10, shards=4)
+
+
 def e1_dv_reader(ctx):
     """E1: multi-field doc-value reader on storage failing inside a call (every read of a load, permanent or transient)."""
     tlc_mc(ctx, "DvReader", "MC_DvReader.cfg", workers=8)
@@ -271,6 +288,7 @@ def plan_C05(ctx):
     run_family(ctx, "iter_big", n_of(ctx, 12, 150), perfile=n_of(ctx, 2, 5))
     run_family(ctx, "build_big", n_of(ctx, 14, 168), perfile=1, seed_off=5)
     run_family(ctx, "iter_share", n_of(ctx, 120, 2500), perfile=n_of(ctx, 20, 40))   # several iterations alive at once, Close, prealloc hand-over
+    run_family(ctx, "adv_boundary", n_of(ctx, 15, 60), perfile=3)                    # from the last posting of a chunk far into the next one
     run_family(ctx, "huge", n_of(ctx, 4, 16), perfile=1, seed_off=3)
     run_family(ctx, "card_boundary", n_of(ctx, 6, 24), perfile=1, seed_off=1)
     run_family(ctx, "giant_posting", n_of(ctx, 1, 6), perfile=1, seed_off=1)
@@ -290,12 +308,16 @@ def plan_tmp(ctx):
 
 
 def plan_C02(ctx):
+    if not ctx.quick:
+        e1_dv_merge(ctx)                      # (quick tier: checked by C07)
+    e2_dv_merge(ctx, n_of(ctx, 40, 600))
     e2_merge_algo(ctx)
     e1_enumerator(ctx)
     e1_merge_algo(ctx)
     e1_merge_term_loop(ctx)
     e2_merge_term_loop(ctx, n_of(ctx, 40, 600))
     e1_chunking(ctx)
+
     e1_loc_stream(ctx)
     e2_loc_stream(ctx, n_of(ctx, 40, 600))
     run_family(ctx, "merge_obs", n_of(ctx, 250, 5000), perfile=n_of(ctx, 20, 40))
@@ -309,6 +331,7 @@ def plan_C02(ctx):
     run_family(ctx, "card_boundary", n_of(ctx, 6, 24), perfile=1)                 # cardinalities on the chunk-size steps, 1-hit inputs
     run_family(ctx, "huge", n_of(ctx, 2, 8), perfile=1, seed_off=1)
     run_family(ctx, "fault_then_merge", n_of(ctx, 20, 300), perfile=10, seed_off=2)
+    run_family(ctx, "reuse", n_of(ctx, 60, 800), perfile=20, seed_off=7)          # merged (1-hit) lists recycled for absent terms
     canary(ctx)
 
 
@@ -357,6 +380,8 @@ def plan_C06(ctx):
 
 
 def plan_C07(ctx):
+    e1_dv_merge(ctx)
+    e2_dv_merge(ctx, n_of(ctx, 40, 600))
     e1_dv_reader(ctx)
     e1_dv(ctx)
     run_family(ctx, "dv_small", n_of(ctx, 200, 4000), perfile=n_of(ctx, 20, 40))
@@ -438,6 +463,7 @@ def plan_C11(ctx):
     run_family(ctx, "faults_w", n_of(ctx, 2, 40), perfile=1, seed_off=3)     # the count returned = the bytes the destination received
     run_family(ctx, "faults_big", n_of(ctx, 2, 16), perfile=1)                # file-backed segment of several 64 KiB pieces
     run_family(ctx, "big_stored", n_of(ctx, 2, 12), perfile=1, seed_off=2)    # memory-backed segments of more than a megabyte
+    run_family(ctx, "twin_persist", n_of(ctx, 40, 600), perfile=20)          # same layout, different content, persisted back to back
     run_family(ctx, "roundtrip", n_of(ctx, 150, 3000), perfile=n_of(ctx, 10, 30), seed_off=7)
     run_family(ctx, "merge_obs", n_of(ctx, 150, 3000), perfile=20, seed_off=8)
     canary(ctx)
